@@ -43,6 +43,8 @@ var paths = []string{
 	// escapes that look like other escapes or like separators once decoded; lower-case hex digits; very long; well-known non-resource paths
 	"/api/v1/namespaces/a%252Fb/pods", "/api/v1/namespaces/a%2fb/pods", "/api/v1/namespaces/ns/pods/x%23y", "/api/v1/namespaces/ns/pods/a;b=c", "/api/v1/namespaces/ns/pods/a:b@c",
 	"/version", "/openapi/v2", "/apis", "/api/v1/namespaces/ns/pods/p/exec", "/api/v1/namespaces/ns/services/https:svc:443/proxy/a%2Fb/c", "/api/v1/namespaces/" + strings.Repeat("n", 3000) + "/pods",
+	// dot segments (a path is forwarded as sent, not normalised), escaped dots, a segment that only looks like one
+	"/api/v1/namespaces/a/../b/pods", "/api/./v1/pods", "/api/v1/pods/..", "/api/v1/namespaces/%2E%2E/pods", "/api/v1/namespaces/.../pods", "/api/v1/namespaces/..a/pods",
 }
 
 var queries = []string{"", "a=1&b=2", "b=2&a=1&a=3", "a=%20+x", "a=", "a", "watch=true&timeoutSeconds=5", "labelSelector=app%3Dx%2Cy+in+%28a%2Cb%29", "a=%26%3D&b=%E4%BD%A0", "a=1;b=2", "%zz=1",
